@@ -82,10 +82,17 @@ def proof_events(ctx, body, rule):
 
 def validated(ctx, e):
     """is the append guarded by a negative identity test of the appended point?"""
-    for (sw, cond, arms, targets) in ctx.path_conditions(e.body, e.bb):
-        c = cond
-        if c.tag == 'call' and c[1].endswith('is_identity') and arms == ('0',):
-            return True
+    # the test may sit in any frame of the call chain that leads to the absorption (validate_and_append_point may delegate
+    # the absorption itself to another helper)
+    frames = list(e.site) if e.site else [(e.body.key, e.bb)]
+    for (bkey, bb) in frames:
+        body = ctx.facts.by_key.get(bkey)
+        if body is None:
+            continue
+        for (sw, cond, arms, targets) in ctx.path_conditions(body, bb):
+            c = cond
+            if c.tag == 'call' and c[1].endswith('is_identity') and arms == ('0',):
+                return True
     return False
 
 
